@@ -396,6 +396,14 @@ def run(ctx):
                                 "(the token tree is built from the stored nodes)")
     store.store_rule(rst, world)
     rst.require(30, "container functions")
+    # (compound-)atomic rules, predicates and `try_check*` run the check twins, and an atomic rule's own span is the cursor its check
+    # twin returns: the tokens carry pest's spans only if the check twin of every node consumes what its parse twin consumes
+    # (seed C02-8: NEWLINE's check twin tried "\r" before "\r\n" — an atomic line token ended inside the CRLF)
+    from . import c03
+    rtw = ctx.rule("R02-TWIN", "the check twin of every TypedNode of pest_typed has the effect tree of its parse twin (C03's instances): "
+                               "spans computed through check twins are the spans the parse twins would give")
+    c03.twin_rule(ctx, world, rtw, lambda im: im.crate.name == "pest_typed" and im.trait == nodes.TN_TRAIT)
+    rtw.require(100, "twin pairs")
     kind_rule(ctx)
     skip_tokens_rule(ctx)
     ctx.assume("equality with pest's tree on inputs and span values are not decided; this decides which nodes contribute tokens and in what order")
